@@ -253,6 +253,7 @@ pub fn run(tier: Tier) -> Report {
             }
             crate::fam::nested_words(&mut |g| push(g));
             crate::fam::word_stars(&mut |g| push(g));
+            crate::fam::deep_shapes(&mut |g| push(g));
             crate::fam::loop_segments(&["a", "b", "d"], loop_len, &mut |g| push(g));
             crate::fam::segment_sequences(seq_len, &mut |g| push(g));
             crate::fam::with_defs(km, k1, k2, &mut |g| push(g));
